@@ -192,7 +192,7 @@ class ZorgFileCompiler(ZorgFileListener):
     ) -> None:  # noqa: D102
         words = ctx.getText().split(" ")
         if len(words) == 1:
-            key, value = words[0][1:-1].split("::")
+            key, value = words[0][1:-1].split("::", maxsplit=1)
         else:
             key = words.pop(0)[1:-2]
             value = " ".join(words)[:-1]
@@ -484,7 +484,7 @@ class ZorgFileCompiler(ZorgFileListener):
             )
             if any(
                 any(
-                    "::" in b.split()[0]
+                    "::" in _first_word(b)
                     for b in bullet.split(l2_bullet_prefix)[1:]
                 )
                 for bullet in bullets
@@ -500,7 +500,7 @@ class ZorgFileCompiler(ZorgFileListener):
                 ]
             if any(
                 any(
-                    "::" in b.split()[0]
+                    "::" in _first_word(b)
                     for b in bullet.split(l3_bullet_prefix)[1:]
                 )
                 for bullet in bullets
@@ -519,10 +519,12 @@ class ZorgFileCompiler(ZorgFileListener):
 
             for bullet in bullets:
                 words = bullet.split()
-                if zdt.is_short_date_spec(words[0]):
+                if words and zdt.is_short_date_spec(words[0]):
                     words.pop(0)
-                if zdt.is_zid(words[0]):
+                if words and zdt.is_zid(words[0]):
                     words.pop(0)
+                if not words:
+                    continue
                 first_word = words.pop(0)
                 if first_word.endswith("::"):
                     key = first_word[:-2]
@@ -534,6 +536,12 @@ class ZorgFileCompiler(ZorgFileListener):
             assert self._s.block is not None
             note = Note(body, file_path=self.page.path, **kwargs)
             self._s.block.notes.append(note)
+
+
+def _first_word(text: str) -> str:
+    """Returns the first whitespace-separated word of {text} (or "")."""
+    words = text.split()
+    return words[0] if words else ""
 
 
 def _get_default_tags_map() -> _TagDict:
